@@ -107,7 +107,8 @@ CONFIG["C13"] = dict(
 
 BLS_TB = COMMON_TB + [
     "modelled, not verified: blst_src (field/curve arithmetic, hash-to-curve, pairing, subgroup checks); the abstract theorems assume a bilinear non-degenerate pairing "
-    "and a subgroup test deciding the image of G1 in E1 (structure PairingGroups, universally quantified, instantiated by a toy instance for non-vacuity); "
+    "and a subgroup test deciding the image of G1 in E1 (structure PairingGroups, universally quantified, instantiated by a toy instance for non-vacuity and, in Props.C01Model / Proofs/BlsConcrete, "
+    "by the r-torsion groups of the executable model's curves with every component concrete except the pairing); "
     "agreement of BLST with that structure is established by the correspondence run only",
     "the abstract Codec laws (decode/encode inverse, 48-byte length) are hypotheses of the abstract BLS theorems; for the executable model of E1_read_bytes/E1_write_bytes they are theorems "
     "(Props.C01.concrete_codec_laws, Props.C05.bls_sig_accepts_iff; p prime by a kernel-checked Pratt certificate), and that model is tied to the C functions by correspondence (C05)",
@@ -119,7 +120,7 @@ def _bls(prop, modules, rule, technique, text, note, gens=None):
                         assumptions=["BLST's pairing is bilinear and non-degenerate on G1 x G2 and POINTonE1_in_G1 decides the prime-order subgroup",
                                      "hash-to-curve is an uninterpreted function observed through the signature of the private key 1"])
 
-_bls("C01", ["Props.C01"],
+_bls("C01", ["Props.C01", "Props.C01Model"],
      "keys {1,2,r-1,r-2,generated,decoded,aggregated,aggregated-to-1,random} x messages (lengths 0,1,135..137,167..169,1KiB,100KiB) x tags (empty, short, BLS_POP_ prefix, 1000 bytes): "
      "Sign compared with the model's sk*H; Verify on the candidate catalogue (valid, negated, s+T for three torsion points built by the model, s+off-group, s+delta in G1, all 8 flag-bit "
      "combinations, bit flips (quick sampled, thorough all 384), x+p twin, x>=p, trailing bytes, lengths, identity and dirty-identity encodings, invalid header), other message/tag/key, "
@@ -127,8 +128,13 @@ _bls("C01", ["Props.C01"],
      "Lean 4 proof (acceptance theorem from bilinearity + codec laws) + differential run vs concrete E1 arithmetic model",
      "Theorem verify_iff: for every pairing structure, hash-to-curve, codec, non-zero key, message and 128-byte hasher, Verify is true for exactly the string Sign returns; corollaries for other message/key, "
      "points outside the subgroup, malformed strings, identity signature, identity key, hasher guards; guards tied to extracted conditions. concrete_codec_laws / signature_encoding_unique: the codec laws hold for the "
-     "executable E1 codec (every accepted string is the one canonical encoding of a reduced curve point; every such point round-trips).",
-     "Lean kernel + correspondence; see trusted base")
+     "executable E1 codec (every accepted string is the one canonical encoding of a reduced curve point; every such point round-trips). "
+     "Props.C01Model (Proofs/BlsConcrete): the abstract setting INSTANTIATED with the groups the executable model computes in - E1 = Mathlib's group of y^2 = x^3 + 4 over ZMod p (the group Model.Curve computes in, Proofs/CurveGroup), "
+     "G1 / G2 = the r-torsion subgroups of that group and of the curve over F_p^2 as ZMod r-modules (membership = Bls.inG1, model_toG1_iff), codec = Bls.readE1 / Bls.writeE1 with its three laws proven; the ONLY parameter left is the pairing. "
+     "model_verify_iff: for EVERY ZMod r-bilinear map on these subgroups that is non-degenerate at the generator of G2, every non-zero key and every hash point of the model in G1, verification under sk*g2 - which is the model's "
+     "publicKeyOf sk (model_public_key_is_abstract_key) - accepts a string iff it is Bls.signPoint sk H, the bytes the model's Sign produces and the run compares with the implementation (model_sign_is_abstract_sign). "
+     "Such bilinear maps exist on these groups (example in the file), so the statement is not vacuous; that BLST's optimal ate pairing is one of them is not proven.",
+     "Lean kernel + correspondence; the pairing is a parameter of the theorems (its existence on the model's groups is shown, BLST's pairing being one is assumed); see trusted base")
 _bls("C02", ["Props.C02"],
      "random shapes n<=12 (thorough n<=40): all-distinct, all-equal, few-messages/many-keys, few-keys/many-messages, ties, duplicated pairs, pk and -pk on one message, equal points held in decoded / "
      "removal-result objects, two hashers; candidates: honest aggregate, permuted triples, share missing/doubled, +torsion, bit flip, wrong length, identity key inside with aggregate of the others; "
